@@ -762,6 +762,28 @@ func c17Classify(c c17Case, obs c17Obs, v string) string {
 	if strings.Contains(v, "registered After(") && f16 {
 		return "F16-C17-before-overwrites-after-request"
 	}
+	// F20: a name N made a request Before(X)/After(X), was removed, and is registered again later: the
+	// back-link the first N left on X (`cs[idx].after = N` / `after.before = N`) survives the Remove and now
+	// acts as a request of X towards the new N that nobody made
+	if strings.Contains(v, "registered") {
+		requested := map[string]bool{} // names that left a back-link
+		removedAfterRequest := map[string]bool{}
+		for _, o := range c.Ops {
+			switch {
+			case o.Op == "remove":
+				if requested[o.Name] {
+					removedAfterRequest[o.Name] = true
+				}
+			default:
+				if removedAfterRequest[o.Name] && strings.Contains(v, fmt.Sprintf("%q", o.Name)) {
+					return "F20-C17-stale-backlink-after-remove"
+				}
+				if (o.Before != "" && o.Before != "*" && o.Before != o.Name) || (o.After != "" && o.After != "*" && o.After != o.Name) {
+					requested[o.Name] = true
+				}
+			}
+		}
+	}
 	// F19: one name is live with a Before("*") record AND an After("*") record (duplicate registration):
 	// the comparator of the sort.SliceStable pre-pass is not a strict weak order on such a table, every
 	// compile reshuffles the records, so an unrelated later call moves existing callbacks
